@@ -2,7 +2,7 @@
 
 M: TLC checks on every behaviour of the small scope (2 names x 2 disks, 2 handles, 4-5 steps): used = sum of the sizes of
    the stored files, handles inside their file, read <= size - position, unlink gives back exactly the size.
-G: TLC generates operation sequences with everything observable after each step (BFS: every sequence of 2-3 steps;
+G: TLC generates operation sequences with everything observable after each step (BFS: every sequence of 3 steps;
    -simulate: seeded sequences of 40 steps over 5 names on 2 disks, one with initial content, 3 handles); the driver
    harness/c46drv.cpp replays each on the real plugin (platform hosts_with_disks.xml, host bob: Disk1 mounted on /scratch
    with initial content, Disk2 mounted on /) and Python compares return value, File::size, File::tell,
@@ -162,7 +162,7 @@ def run(ctx):
 
     # ---------------------------------------------------------------- G: generation
     fams = []     # (family, names, init, sequences)
-    c = dict(base, MaxSteps=3 if q else 4, Names=[1, 2], Handles=[1, 2], Record=True)
+    c = dict(base, MaxSteps=3, Names=[1, 2], Handles=[1, 2], Record=True)
     r, ex = L.generate(ctx, "FileSys.tla", "fs_bfs", c, "bfs", invariants=["Inv"], env={"FS_INIT": small_init}, timeout=1500,
                        extra=redef)
     fams.append(("exhaustive", [1, 2], init[:1], ex))
@@ -221,7 +221,7 @@ def run(ctx):
                        "names x 2 disks x 2 handles; -simulate seeded by VERIF_SEED: 40 steps over 5 names x 2 disks x 3 handles, "
                        "families full and clean); each is replayed in its own process on host bob and every step compared; "
                        "non-trivial = at least two size-changing operations; distinct by hash of (family, operation list)" %
-                       (3 if q else 4))
+                       3)
     ctx.assumptions += ["one handle per file at a time; moves only to unused names on the same disk; disk capacity (500 GiB) never "
                         "approached; remote mounts, remote_copy/remote_move are not exercised",
                         "write below the end of a file without write_inside is read as a truncating write (the code gives the tail "
